@@ -331,6 +331,15 @@ class AbstractMessageLogEntry(abc.ABC):
         if not isinstance(val, (int, float, bytes, str, type(None), tuple, TupleCoord)):
             val = str(val)
 
+        try:
+            return self._apply_operator(operator, val, expected)
+        except (TypeError, AttributeError, ValueError):
+            # Comparison that can't be applied to this field's type, like `> 5` on a
+            # string field. Just not a match for this field, other fields may still match.
+            return False
+
+    @staticmethod
+    def _apply_operator(operator, val, expected):
         if not operator:
             return bool(val)
         elif operator == "==":
@@ -358,7 +367,7 @@ class AbstractMessageLogEntry(abc.ABC):
         elif operator == ">=":
             return val >= expected
         elif operator == "&":
-            return val & expected
+            return bool(val & expected)
         else:
             raise ValueError(f"Unexpected operator {operator!r}")
 
